@@ -329,8 +329,11 @@ def tableOfPred (p : Assign → Bool) : List (Option Bool) := allAssign.map (fun
 inductive SemStep where
   | read (fileOpt delimOpt : String) (table : List (Option Bool))
   | transpose (target : String) (table : List (Option Bool))
-  /-- `direct` = embedUsing(input) (false: the precomputed-callback branch over the same input) -/
-  | embed (direct : Bool) (params : String) (table : List (Option Bool))
+  /-- `direct` = embedUsing(input) (false: the precomputed-callback branch over the same input); `kernel`, `distance`,
+      `features` = what reaches the three callback slots, as the translator's canonical descriptors (`kernel(input)` =
+      eigen_kernel_callback over the input matrix; `precomputed_distance[needs_distance ? distance(input)]` =
+      precomputed_distance_callback over the matrix filled from eigen_distance_callback(input) iff the method needs it) -/
+  | embed (direct : Bool) (params : String) (kernel distance features : String) (table : List (Option Bool))
   | writeMatrix (what fileOpt delimOpt : String) (table : List (Option Bool))
   | writeVector (what fileOpt : String) (table : List (Option Bool))
   | guard (exit : Nat) (table : List (Option Bool))
@@ -352,7 +355,7 @@ def Step.sem : Step → SemStep
     | some fo, some dopt => if t == "input" then .read fo dopt (tableOf c) else .other
     | _, _ => .other
   | .transpose c t => .transpose t (tableOf c)
-  | .embed c p d _ _ _ => .embed (d == "input") p (tableOf c)
+  | .embed c p d k ds f => .embed (d == "input") p k ds f (tableOf c)
   | .writeMatrix c w f d =>
     match fileOpt? f, delimOpt? d with
     | some fo, some dopt => .writeMatrix w fo dopt (tableOf c)
